@@ -168,6 +168,12 @@ def resolve_symbols(fn, loop, allsyms, texts, globals_):
         if w in globals_:
             pairs.append((w, w))
             continue
+        if w.startswith("P__"):
+            # explicit reference to the function's PARAMETER of that name (a loop-local declaration shadows it in the body)
+            if fn + "::" + w[3:] not in allsyms:
+                raise Undecided("extraction break: %s has no parameter '%s'" % (fn, w[3:]))
+            pairs.append((w, fn + "::" + w[3:]))
+            continue
         cands = [s for s in fnsyms if s.split("::")[-1] == w]
         inloop = [s for s in cands if s in loop["symbols"]]
         pick = None
@@ -261,6 +267,9 @@ def classify(name, desc):
         return "frame"
     if "loop_invariant" in n or "loop_decreases" in n or "loop_assigns" in n or "loop_step_unwinding" in n:
         return "loop"
+    # obligation texts of the non-dfcc loop-contract instrumentation
+    if desc.startswith(("Check loop invariant before entry", "Check that loop invariant is preserved", "Check decreases clause on loop iteration")):
+        return "loop"
     if ".unwind." in n or "unwinding assertion" in desc:
         return "unwind"
     if ".pointer" in n or ".bounds." in n or ".array_bounds." in n or "memory-leak" in n or ".alignment." in n:
@@ -336,6 +345,8 @@ def compile_source(s, avx, strict, export_static):
             cmd += ["-isystem", os.path.join(VERIF, "shim"), "-mavx2", "-mfma"]
             if strict:
                 cmd += ["-DSHIM_STRICT"]
+            if strict == 2:
+                cmd += ["-DSHIM_GHOST_MUL"]
         if export_static:
             cmd += ["--export-file-local-symbols"]
         rc, o, e = run(cmd, timeout=300)
@@ -345,15 +356,15 @@ def compile_source(s, avx, strict, export_static):
         return out
 
 
-def compile_shim(strict):
+def compile_shim(strict, wide=None):
     """bodies of the x86 builtins CBMC does not model (trusted stubs, /verif/shim/builtins.c)"""
-    out = os.path.join(SRC_CACHE, "shim_builtins.%d.gb" % int(strict))
+    out = os.path.join(SRC_CACHE, "shim_builtins.%d.%s.gb" % (int(strict), wide or 0))
     with _src_lock:
         lk = _src_locks.setdefault(out, threading.Lock())
     with lk:
         if not os.path.exists(out):
             os.makedirs(SRC_CACHE, exist_ok=True)
-            cmd = ["goto-cc", "-c", os.path.join(VERIF, "shim", "builtins.c"), "-o", out + ".tmp"] + (["-DSHIM_STRICT"] if strict else [])
+            cmd = ["goto-cc", "-c", os.path.join(VERIF, "shim", "builtins.c"), "-o", out + ".tmp"] + (["-DSHIM_STRICT"] if strict else []) + (["-DSHIM_GHOST_MUL"] if strict == 2 else []) + (["-DSHIM_WIDE_BITS=%s" % wide] if wide else [])
             rc, o, e = run(cmd, timeout=120)
             if rc != 0:
                 raise Undecided("goto-cc failed on shim: " + (e or o)[-400:])
@@ -369,7 +380,7 @@ def compile_job(job, wd):
     inc = ["-I" + SRC, "-I" + os.path.join(VERIF, "contracts")]
     gbs = [compile_source(s, job.avx or "avx" in s or "fma" in s, job.strict_shim, job.export_static) for s in job.sources]
     if job.avx or any(("avx" in s or "fma" in s) for s in job.sources):
-        gbs.append(compile_shim(job.strict_shim))
+        gbs.append(compile_shim(job.strict_shim, job.defines.get("SHIM_WIDE_BITS")))
     gbs.append(os.path.join(VERIF, "shim", "cpu_supports.c"))
     h = os.path.join(VERIF, "contracts", job.harness)
     a = os.path.join(wd, "a.gb")
@@ -378,6 +389,8 @@ def compile_job(job, wd):
         cmd += ["-isystem", os.path.join(VERIF, "shim"), "-mavx2", "-mfma"]
         if job.strict_shim:
             cmd += ["-DSHIM_STRICT"]
+        if job.strict_shim == 2:
+            cmd += ["-DSHIM_GHOST_MUL"]
     rc, o, e = run(cmd, timeout=300)
     if rc != 0:
         raise Undecided("goto-cc link failed: %s" % (e or o)[-800:])
@@ -628,6 +641,12 @@ def run_job(job, keep=False):
             R.obligations.append(ob)
             if r["status"] == "FAILURE":
                 R.failed.append(ob)
+        nobody = [o for o in R.failed if o["desc"].startswith("undefined function should be unreachable")]
+        if nobody:
+            # the code under proof calls a function that has no body in this run: everything after the call is unreachable for
+            # the verifier, so the run decides nothing (it must not count as a pass, nor as a violation of the property)
+            raise Undecided("extraction break: the code under proof calls %s, which has no body and no contract in this run"
+                            % ", ".join(sorted(set(o["name"].split(".")[0] for o in nobody))))
         real_fail = [o for o in R.failed if o["cls"] != "unwind"]
         if job.expect_canary and not canary_failed and not real_fail:
             # (a reported FAILURE is a reachable violation whether or not the end of the harness is reachable: only successes
